@@ -1,8 +1,10 @@
 #!/usr/bin/env python3
 """Prints the markdown tables of DESIGN.md sections 9 and 11 from known_findings.json, pending_fixes/*.msg and seeded/*/verdict.json."""
-import json, os, glob, re, subprocess
+import json, os, glob, re, subprocess, sys, io
 HERE = os.path.dirname(os.path.dirname(os.path.abspath(__file__)))
 kf = json.load(open(os.path.join(HERE, "known_findings.json")))
+_real_stdout = sys.stdout
+sys.stdout = buf1 = io.StringIO()
 print("### Repaired defects (`fix:` commits in /repo, one each; pinned suite still 254 passed)\n")
 print("| property | commit | what failed | patch |")
 print("|---|---|---|---|")
@@ -16,7 +18,8 @@ print("| property | site | what fails |")
 print("|---|---|---|")
 for f in kf["findings"]:
     print(f"| {f['property']} | `{f['site']}` | {f['what'][:600]} |")
-print("\n### Seeded changes and the verdict of the checks\n")
+sys.stdout = buf2 = io.StringIO()
+print("### Seeded changes and the verdict of the checks\n")
 print("| id | property | what the change does | needs | check outcome |")
 print("|---|---|---|---|---|")
 for vf in sorted(glob.glob(os.path.join(HERE, "seeded", "*", "verdict.json"))):
@@ -30,3 +33,16 @@ for vf in sorted(glob.glob(os.path.join(HERE, "seeded", "*", "verdict.json"))):
         else:
             outs.append(f"{p}: rc={c['rc']} (missed)" if c["rc"] == 0 else f"{p}: rc={c['rc']}")
     print(f"| {os.path.basename(d)} | {meta['property']} | {meta['what'][:220]} | {meta['needs'][:160]} | {'; '.join(outs)} |")
+
+sys.stdout = _real_stdout
+if "--inplace" in sys.argv:
+    dp = os.path.join(HERE, "DESIGN.md")
+    d = open(dp).read()
+    for tag, txt in (("defect-tables", buf1.getvalue()), ("seeded-table", buf2.getvalue())):
+        a = d.index(f"<!-- AUTO:{tag} -->") + len(f"<!-- AUTO:{tag} -->")
+        b = d.index(f"<!-- /AUTO:{tag} -->")
+        d = d[:a] + "\n" + txt + "\n" + d[b:]
+    open(dp, "w").write(d)
+    print("DESIGN.md tables updated")
+else:
+    print(buf1.getvalue()); print(buf2.getvalue())
